@@ -80,7 +80,28 @@ claim("C12", "polynomial form of the GV target + taint from the weight inside th
       "Sound static decision of the structural clauses of C12: the GV target is gv_mean[vector_index] x gv_weight; a stream without GV returns the plain ML solution independently of the weight, and the weight is read nowhere else; with no eligible frame the trajectory is returned unmodified; the statistics compared with the target (calc_gv) are sums over exactly the switched-on frames divided by their count; the per-state switch is !gv_off_context.test(label), expanded by the same durations and filtered by the same mask as the parameters, and both the variance rescaling and the GV gradient term touch switched-on frames only. NOT decided: the 20 % variance law and monotonicity (numerical).")
 
 
+# clauses added in later rounds (DESIGN.md §9.2), appended to the claim texts above
+ADDENDA = {
+    "C01": "Added: create_with_alignment has no unsigned subtraction that could wrap (the frame budget is a float difference).",
+    "C02": "Added (R7): the output buffer is write-only - no statement of generate_step / Vocoder::synthesize or their closures loads an element of it, so a chunk does not depend on what the caller's buffer held.",
+    "C05": "Added: every call of substitutions sits behind a factorisation of the same receiver and no path of par() returns around the solver.",
+    "C09": "Added: the alignment flag alone decides between create_with_alignment and create(speed).",
+    "C10": "Added: no branch of mul / mul_add_assign depends on the weight.",
+    "C11": "Added (R8): set_msd_threshold stores clamp(f, 0, 1) on every path and get_msd_threshold returns that element.",
+    "C12": "Added: MlpgAdjust::new keeps the stream's GV statistics unchanged, create() hands self.gv to par(), and with a GV model every return of par() is apply_gv's result.",
+    "C13": "Added (R6, R7): the MGLSA section and its cascade; the generalised branch of Vocoder::synthesize (df call and arguments, gain b[0], linear interpolation, first-frame / end-of-frame values, b[i] *= gamma for i >= 1 on the first and on every frame); delayed inputs of lsp2lpc maintained as x2 <- x1 <- x.",
+    "C14": "Added: conversion stores may be conditional only if the buffer they start from is a copy of the input; the postfilter calls are unconditional in their branch (at most beta > 0).",
+    "C15": "Added: the single call is unconditional (at most h != 0) and the half tone feeds nothing else in Engine::generator.",
+    "C17": "Added (R6): every Ok of Labels::new has one time pair per label (negative = unknown pairs when no times are given).",
+    "C20": "Added: each setter's store is on every path to the return.",
+}
+
+
 def main():
+    for pid_, add_ in ADDENDA.items():
+        if pid_ in CHECKS:
+            t_, x_, r_ = CHECKS[pid_]
+            CHECKS[pid_] = (t_, x_ + " " + add_, r_)
     props = [json.loads(l) for l in open(os.path.join(VERIF, "properties.jsonl"))]
     ids = [p["id"] for p in props]
     checks = []
